@@ -592,6 +592,12 @@ func (s *Server) FastInvoke(w http.ResponseWriter, i *interop.Invoke, direct boo
 			}
 		} else {
 			verifhook.Point("fastInvoke.successSeen")
+			if s.GetCurrentInvokeID() != i.ID {
+				// As for a failed invocation above: the reservation of this invocation is gone
+				// (it timed out and was reset while it completed); its DONE would be taken for
+				// the outcome of whichever invocation reserves next.
+				return
+			}
 			done := doneFromInvokeSuccess(invokeSuccess)
 			s.InvokeDoneChan <- DoneWithState{Done: done, State: s.InternalStateGetter()}
 		}
